@@ -85,6 +85,14 @@ func c04Gen(r *kit.Rand, idx int) c04Case {
 			op = c04Op{Op: "pull", Name: kit.Pick(r, []string{"ns/pm:latest", "ns/pm:v2", "ns/other:latest"})}
 		case k < 17:
 			op = c04Op{Op: "show", Name: kit.Pick(r, live)}
+		case k < 19 && r.Chance(1, 2):
+			// debris of an interrupted create/copy/pull: an empty (or garbage) manifest file under a sibling tag
+			// of an existing model; the server is written to tolerate such files (Manifests(continueOnError))
+			base := kit.Pick(r, live)
+			if i := strings.LastIndex(base, ":"); i > strings.LastIndex(base, "/") {
+				base = base[:i]
+			}
+			op = c04Op{Op: "debris", Name: base + ":" + kit.Pick(r, []string{"aaa", "0", "zzz", "broken"}), Blob: r.Intn(2)}
 		case k < 18:
 			// the base model exists neither locally nor on the (fake) registry: create must fail and change nothing
 			op = c04Op{Op: "create-from", Name: pick(), From: "REG/ns/missing:latest"}
@@ -198,6 +206,7 @@ func c04Run(bin, work string, c *c04Case, seed uint64, rep *kit.Report) (vs []c0
 	defer func() { srv.Kill() }()
 
 	viol := func(sig, what string) { vs = append(vs, c04Viol{sig, what}) }
+	debris := map[string]bool{} // manifest paths (relative) that the harness planted as unreadable files
 	for oi := range c.Ops {
 		op := &c.Ops[oi]
 		before := readStore(srv.Models, true)
@@ -256,6 +265,32 @@ func c04Run(bin, work string, c *c04Case, seed uint64, rep *kit.Report) (vs []c0
 			res = srv.Pull(fullName, true, nil)
 		case "show":
 			res = srv.Show(op.Name)
+		case "debris":
+			// find the directory of an existing manifest of that model (the store's own spelling) and plant the file there
+			full := c04Full(op.Name)
+			var dir string
+			for p := range before.Manifests {
+				parts := strings.Split(filepath.ToSlash(p), "/")
+				if len(parts) == 4 && strings.EqualFold(parts[0]+"/"+parts[1]+"/"+parts[2], full[:strings.LastIndex(full, ":")]) {
+					dir = filepath.Join(parts[0], parts[1], parts[2])
+				}
+			}
+			if dir == "" {
+				op.Result = "skipped (model not present)"
+				continue
+			}
+			rel := filepath.Join(dir, full[strings.LastIndex(full, ":")+1:])
+			if _, exists := before.Manifests[rel]; exists {
+				op.Result = "skipped (tag exists)"
+				continue
+			}
+			content := []byte{}
+			if op.Blob == 1 {
+				content = []byte("{\"schemaVersion\":2,\"layers\":[{\"dig")
+			}
+			os.WriteFile(filepath.Join(srv.Models, "manifests", rel), content, 0o644)
+			debris[rel] = true
+			res = apiResult{Status: 200}
 		case "restart":
 			srv.Stop()
 			if !srv.WaitExit(10 * 1e9) {
@@ -295,8 +330,24 @@ func c04Run(bin, work string, c *c04Case, seed uint64, rep *kit.Report) (vs []c0
 		}
 		desc := fmt.Sprintf("op %d (%s name=%q from=%q -> %s)", oi, op.Op, op.Name, op.From, op.Result)
 		// I1: every listed model can be shown and is complete on disk
-		if len(names) != len(after.Manifests) {
-			viol("c04:list-vs-store", fmt.Sprintf("%s: %d names listed, %d manifest files on disk (%v vs %v)", desc, len(names), len(after.Manifests), names, keys(after.Manifests)))
+		readable := 0
+		for p := range after.Manifests {
+			if !debris[p] {
+				readable++
+			} else if _, err := os.Stat(filepath.Join(srv.Models, "manifests", p)); err != nil {
+				delete(debris, p)
+			}
+		}
+		for p := range debris {
+			if _, ok := after.Manifests[p]; !ok {
+				delete(debris, p) // overwritten or removed by an operation
+			} else if _, _, parsed := checkManifest(srv.Models, after.Manifests[p]); parsed {
+				delete(debris, p) // an operation wrote a real manifest over it
+				readable++
+			}
+		}
+		if len(names) != readable {
+			viol("c04:list-vs-store", fmt.Sprintf("%s: %d names listed, %d readable manifest files on disk (%v vs %v)", desc, len(names), readable, names, keys(after.Manifests)))
 		}
 		for _, n := range names {
 			if r := srv.Show(n); !r.OK() {
@@ -306,7 +357,9 @@ func c04Run(bin, work string, c *c04Case, seed uint64, rep *kit.Report) (vs []c0
 		for p, raw := range after.Manifests {
 			_, problems, parsed := checkManifest(srv.Models, raw)
 			if !parsed {
-				viol("c04:manifest-unreadable", fmt.Sprintf("%s: manifest %s does not parse", desc, p))
+				if !debris[p] {
+					viol("c04:manifest-unreadable", fmt.Sprintf("%s: manifest %s does not parse", desc, p))
+				}
 			} else if len(problems) > 0 {
 				kind := "other-model"
 				if target[strings.ToLower(strings.Replace(p, string(filepath.Separator), "/", -1))] || c04TargetPath(target, p) {
@@ -347,7 +400,7 @@ func c04Run(bin, work string, c *c04Case, seed uint64, rep *kit.Report) (vs []c0
 					viol("c04:restart-changed-manifest", fmt.Sprintf("%s: manifest %s changed or disappeared over a restart", desc, p))
 				}
 			}
-			if !op.NoPrune {
+			if !op.NoPrune && len(debris) == 0 { // with unreadable manifests present start-up deliberately skips pruning
 				refs := referenced(after, nil)
 				for bf := range after.Blobs {
 					if !refs[bf] {
@@ -449,7 +502,7 @@ func runC04() {
 	rep := kit.NewReport("C04")
 	cfg := rep.Cfg()
 	defer rep.Flush()
-	rep.Set("rule", "case i = PRNG(seed,'C04',i): 7-15 operations through the public API of the real server binary over a pool of 12 names (case variants, namespaces, a second host) x 6 tags: create from uploaded GGUF blobs (pool of 3, digest sent as sha256:<hex> or sha256-<hex>), create from an existing model with template/system/license/parameter overrides, copy, delete (also by case variant), fault-free pull of published models that share blobs with the created ones, show, restart (start-up prune, or OLLAMA_NOPRUNE); every history ends with a pruning restart. After every operation the store directory is read and re-hashed: every listed model shows and has all layers + config with matching size/SHA-256; manifests and blobs of models not named by the operation are byte-identical; after a pruning restart blobs == referenced digests; no two listed names equal under case folding; created => listed, deleted => not listed, copied => same manifest. Non-trivial & distinct = distinct (op-kind sequence, outcomes) among histories in which at least two models shared a blob when a delete/create/prune ran")
+	rep.Set("rule", "case i = PRNG(seed,'C04',i): 7-15 operations through the public API of the real server binary over a pool of 12 names (case variants, namespaces, a second host) x 6 tags: create from uploaded GGUF blobs (pool of 3, digest sent as sha256:<hex> or sha256-<hex>), create from an existing model with template/system/license/parameter overrides, copy, delete (also by case variant), fault-free pull of published models that share blobs with the created ones, show, planted debris (an empty or truncated manifest file under a sibling tag of an existing model, as an interrupted create/copy/pull leaves it), restart (start-up prune, or OLLAMA_NOPRUNE); every history ends with a pruning restart. After every operation the store directory is read and re-hashed: every listed model shows and has all layers + config with matching size/SHA-256; manifests and blobs of models not named by the operation are byte-identical; after a pruning restart blobs == referenced digests; no two listed names equal under case folding; created => listed, deleted => not listed, copied => same manifest. Non-trivial & distinct = distinct (op-kind sequence, outcomes) among histories in which at least two models shared a blob when a delete/create/prune ran")
 	rep.Set("assumptions", []string{"operations are issued one at a time (concurrent store operations are C15's subject)", "create-from is only issued for sources that exist (a missing source would contact the public registry)"})
 	bin := os.Getenv("VERIF_OLLAMA_BIN")
 	work, err := os.MkdirTemp("", "verif-c04-")
